@@ -39,6 +39,12 @@ class Run:
     def __init__(self, prop, tier, seed, replay=None):
         self.prop, self.tier, self.seed, self.replay = prop, tier, seed, replay
         self.t0 = time.time()
+        # the per-scenario driver programs fill Go's build cache quickly (measured: 130 GB over a day): drop it when the disk gets short
+        try:
+            if shutil.disk_usage(os.path.expanduser("~")).free < 30 * 2 ** 30:
+                subprocess.run(["go", "clean", "-cache"], env=GOENV, stdout=subprocess.DEVNULL, stderr=subprocess.DEVNULL, timeout=3600)
+        except Exception:
+            pass
         base = os.environ.get("VERIF_SCRATCH") or tempfile.gettempdir()
         self.scratch = tempfile.mkdtemp(prefix="vf-%s-" % prop, dir=base)
         self.tlc_runs = []          # statistics of every TLC invocation
